@@ -63,9 +63,13 @@ def run(tier, seed):
             valid_sets.append((kind, dict(b, convergence_test="max_diff", gamma=0.01, epsilon=2.0)))       # threshold 198
         if kind == "pi":
             valid_sets.append((kind, dict(b, max_eval_iter=1)))
+        if kind == "semi":
+            # the seed must reach the generator by every route: shuffled sweeps over several batches, seeds other than the default
+            valid_sets.append((kind, dict(b, shuffle_states=True, random_seed=7, max_batch_size=2)))
+            valid_sets.append((kind, dict(b, shuffle_states=True, random_seed=0, max_batch_size=1)))
     if tier == "quick":
         rng.shuffle(valid_sets)
-        keep = [v for v in valid_sets if "convergence_test" in v[1]] + [v for v in valid_sets if v[1].get("gamma") in (0.0, 1.0) or v[1].get("epsilon", 0) >= 100][:30] + valid_sets[:20]
+        keep = [v for v in valid_sets if "convergence_test" in v[1] or "shuffle_states" in v[1]] + [v for v in valid_sets if v[1].get("gamma") in (0.0, 1.0) or v[1].get("epsilon", 0) >= 100][:30] + valid_sets[:20]
         valid_sets = keep
     for kind, p in valid_sets:
         for route in ("kwargs", "config", "yaml"):
